@@ -325,6 +325,10 @@ pub(crate) fn vlayout_of(l: &DatabaseLayout) -> VLayout {
 mod snapshot;
 pub use snapshot::*;
 
+// C04: logical shape of a table's B-tree (filled by BtreeMut::verif_shape)
+mod shape;
+pub use shape::{VShape, VShapeNode};
+
 // C15: the key a branch page stores between two children (btree_base::branch_separator), for any key type
 pub fn branch_separator<K: crate::Key>(left: &[u8], right: &[u8]) -> Vec<u8> {
     crate::tree_store::btree_base::branch_separator::<K>(left, right).into_owned()
